@@ -210,6 +210,7 @@ static void runScheduled(Case& c) {
   distribute(*w, f);
   f = Fut();
   vs::Sched* S = new vs::Sched(c.sched, c.budget, c.timeouts != 0);
+  if (c.timeouts == 2) S->setSpurious(true);   // timeouts field 2: futex waits may also return spuriously (property judged on results only)
   g_S = S;
   for (size_t t = 0; t < c.ths.size(); ++t) S->spawn([w, t]() { w->runProg(t); });
   S->run();
